@@ -31,8 +31,13 @@ class Interval(Domain):
     def __call__(self, **data):
         new_lower_bound = self.lower_bound.partially_evaluate(**data)
         new_upper_bound = self.upper_bound.partially_evaluate(**data)
-        return Interval(
-            space=self.space, lower_bound=new_lower_bound, upper_bound=new_upper_bound
+        return self._evaluate_user_volume(
+            Interval(
+                space=self.space,
+                lower_bound=new_lower_bound,
+                upper_bound=new_upper_bound,
+            ),
+            **data,
         )
 
     def _contains(self, points, params=Points.empty()):
@@ -166,8 +171,11 @@ class IntervalSingleBoundaryPoint(BoundaryDomain):
                 if not isinstance(value, torch.Tensor):
                     value = torch.tensor(value, dtype=torch.float32).reshape(1, -1)
                 new_side.set_default(**{vname: value})
-        return IntervalSingleBoundaryPoint(
-            evaluate_domain, side=new_side, normal_vec=self.normal_vec
+        return self._evaluate_user_volume(
+            IntervalSingleBoundaryPoint(
+                evaluate_domain, side=new_side, normal_vec=self.normal_vec
+            ),
+            **data,
         )
 
     def _contains(self, points, params=Points.empty()):
